@@ -29,24 +29,24 @@ def plan(prop, tier):
     f, b = ('fwd',), ('bwd',)
     both = ('fwd', 'bwd')
     P = {
-        'C02': [('L1', lambda: LY.L1(tier, f)), ('L1x', lambda: LY.L1x(tier, f)), ('L2', lambda: LY.L2(tier, f)), ('L3', lambda: LY.L3(tier, f)),
+        'C02': [('L3y', lambda: LY.L3y(tier, f)), ('L7s', lambda: LY.L7s(tier, f)), ('L2c', lambda: LY.L2c(tier)), ('L1', lambda: LY.L1(tier, f)), ('L1x', lambda: LY.L1x(tier, f)), ('L1y', lambda: LY.L1y(tier, f)), ('L2', lambda: LY.L2(tier, f)), ('L3', lambda: LY.L3(tier, f)),
                 ('L6', lambda: (s for s in LY.L6(tier) if s.sched == 'fwd')), ('L4clock', lambda: LY.L4_inputs(tier, f)),
                 ('L4cal', lambda: LY.L4_inputs(tier, f))],
-        'C03': [('L1', lambda: LY.L1(tier)), ('L1x', lambda: LY.L1x(tier)), ('L2', lambda: LY.L2(tier)), ('L3', lambda: LY.L3(tier)),
+        'C03': [('L3y', lambda: LY.L3y(tier)), ('L7s', lambda: LY.L7s(tier)), ('L2c', lambda: LY.L2c(tier)), ('L1', lambda: LY.L1(tier)), ('L1x', lambda: LY.L1x(tier)), ('L1y', lambda: LY.L1y(tier)), ('L2', lambda: LY.L2(tier)), ('L3', lambda: LY.L3(tier)),
                 ('L7', lambda: LY.L3(tier, decimal=True)), ('L4cal', lambda: LY.L4_inputs(tier)), ('L3long', lambda: LY.L3long(tier))],
-        'C04': [('L1', lambda: LY.L1(tier)), ('L1x', lambda: LY.L1x(tier)), ('L2', lambda: LY.L2(tier)), ('L3', lambda: LY.L3(tier)),
+        'C04': [('L3y', lambda: LY.L3y(tier)), ('L7s', lambda: LY.L7s(tier)), ('L2c', lambda: LY.L2c(tier)), ('L1', lambda: LY.L1(tier)), ('L1x', lambda: LY.L1x(tier)), ('L1y', lambda: LY.L1y(tier)), ('L2', lambda: LY.L2(tier)), ('L3', lambda: LY.L3(tier)),
                 ('L7', lambda: LY.L3(tier, decimal=True)), ('L3long', lambda: LY.L3long(tier))],
-        'C07': [('L1', lambda: LY.L1(tier)), ('L1x', lambda: LY.L1x(tier)), ('L2', lambda: LY.L2(tier)), ('L3', lambda: LY.L3(tier)),
+        'C07': [('L3y', lambda: LY.L3y(tier)), ('L7s', lambda: LY.L7s(tier)), ('L2c', lambda: LY.L2c(tier)), ('L1', lambda: LY.L1(tier)), ('L1x', lambda: LY.L1x(tier)), ('L1y', lambda: LY.L1y(tier)), ('L2', lambda: LY.L2(tier)), ('L3', lambda: LY.L3(tier)),
                 ('L6', lambda: LY.L6(tier)), ('L2b', lambda: LY.L2b(tier))],
-        'C08': [('L1', lambda: LY.L1(tier, f, (True, False))), ('L1x', lambda: LY.L1x(tier, f)), ('L3', lambda: LY.L3(tier, f)),
+        'C08': [('L3y', lambda: LY.L3y(tier, f)), ('L7s', lambda: LY.L7s(tier, f)), ('L2c', lambda: LY.L2c(tier)), ('L1', lambda: LY.L1(tier, f, (True, False))), ('L1x', lambda: LY.L1x(tier, f)), ('L1y', lambda: LY.L1y(tier, f)), ('L3', lambda: LY.L3(tier, f)),
                 ('L7', lambda: LY.L3(tier, f, decimal=True)), ('L4cal', lambda: LY.L4_inputs(tier, f)), ('L3long', lambda: LY.L3long(tier, f))],
-        'C09': [('L1', lambda: LY.L1(tier, b)), ('L1x', lambda: LY.L1x(tier, b)), ('L3', lambda: LY.L3(tier, b)), ('L4cal', lambda: LY.L4_inputs(tier, b)),
+        'C09': [('L3y', lambda: LY.L3y(tier, b)), ('L7s', lambda: LY.L7s(tier, b)), ('L1', lambda: LY.L1(tier, b)), ('L1x', lambda: LY.L1x(tier, b)), ('L1y', lambda: LY.L1y(tier, b)), ('L3', lambda: LY.L3(tier, b)), ('L4cal', lambda: LY.L4_inputs(tier, b)),
                 ('L2', lambda: LY.L2(tier, b)), ('L3long', lambda: LY.L3long(tier, b))],
-        'C14': [('L1', lambda: LY.L1(tier, include_cycles=True)), ('L1x', lambda: LY.L1x(tier)), ('L2', lambda: LY.L2(tier)), ('L3', lambda: LY.L3(tier)),
+        'C14': [('L3y', lambda: LY.L3y(tier)), ('L7s', lambda: LY.L7s(tier)), ('L2c', lambda: LY.L2c(tier)), ('L1', lambda: LY.L1(tier, include_cycles=True)), ('L1x', lambda: LY.L1x(tier)), ('L1y', lambda: LY.L1y(tier)), ('L2', lambda: LY.L2(tier)), ('L3', lambda: LY.L3(tier)),
                 ('L6', lambda: LY.L6(tier, include_cycles=True)), ('L7', lambda: LY.L3(tier, decimal=True)), ('L5', lambda: LY.L5(tier)), ('L2b', lambda: LY.L2b(tier)), ('L3long', lambda: LY.L3long(tier)),
                 ('L4cal', lambda: LY.L4_inputs(tier))],
     }
-    return P[prop]
+    return P[prop] + ([('HC', None)] if prop in ('C02', 'C03', 'C04', 'C08', 'C14') else [])
 
 
 ORACLE = {'C02': OR.c02, 'C03': OR.c03, 'C04': OR.c04, 'C07': OR.c07, 'C08': OR.c08, 'C09': OR.c09}
@@ -101,7 +101,7 @@ def evaluate(prop, sc, ex, acc, extra=None, expected=None):
 
 def c08_metamorphic(sc, ctx, ex, ob, V, P):
     """Balancing off: a task's dates do not change when unrelated tasks are removed."""
-    if sc.sched != 'fwd' or sc.ext:
+    if sc.sched != 'fwd' or sc.ext or sc.layer == 'HC':
         return
     n = len(sc.tasks)
     par = ctx.par
@@ -195,9 +195,55 @@ def run_cal_tree(prop, sc, acc, bound):
         evaluate(prop, sc, ex, acc, extra={'decisions': list(choices), 'non_default_days': days})
 
 
+def calendar_edit_histories(prop, acc, compare_fresh=False):
+    """calc; the resource's dated calendar is edited (a day off is cancelled / a new day off is added); calc again on the SAME
+    scheduler and resource objects. The second schedule is judged against the calendar as it is now."""
+    from pjplan import DirectCalendar, WeeklyCalendar, Resource
+    from ..sched import scenario as SC
+    Counting, _ = SC._cls()
+    for sched_kind in (('fwd', 'bwd') if prop not in ('C02', 'C08') else ('fwd',)):
+        A = MON if sched_kind == 'fwd' else MON + 21 * DAY
+        near = [A + DAY, A + 2 * DAY] if sched_kind == 'fwd' else [A - 4 * DAY, A - 5 * DAY]
+        for bal in (True, False):
+            for ests in ((12, 4), (4, 12), (20, 8)):
+                for edit in ('cancel-day-off', 'add-day-off', 'halve-a-day'):
+                    days_off = DirectCalendar({near[0]: 8})
+                    cal = WeeklyCalendar(days=[0, 1, 2, 3, 4], units_per_day=8) - days_off
+                    resources = [Resource('A', Counting(cal))]
+                    attrs = {i: {'estimate': e, 'resource': 'A'} for i, e in enumerate(ests)}
+                    # cals names the resource as supplied (the calendar object itself is built here, not from a menu)
+                    sc = Scenario(sched_kind, bal, A, LY.mk_tasks((None, None), attrs), [], cals={'A': 'custom-edited-later'}, layer='HC')
+                    sch = make_scheduler(sc, resources)
+                    execute(sc, scheduler=sch)
+                    if edit == 'cancel-day-off':
+                        days_off.set_units({near[0]: 0})
+                    elif edit == 'add-day-off':
+                        days_off.set_units({near[1]: 8})
+                    else:
+                        days_off.set_units({near[1]: 4})
+                    ex2 = execute(sc, scheduler=sch)
+                    acc.count('premise:calc-after-calendar-edit')
+                    if prop == 'C06' or compare_fresh:
+                        ex3 = execute(sc, scheduler=make_scheduler(sc, resources))
+                        acc.count('executions', 2)
+                        acc.count('nontrivial')
+                        k2 = outcome_key(SchedObs(ex2)) if ex2.status == 'ok' else ex2.status
+                        k3 = outcome_key(SchedObs(ex3)) if ex3.status == 'ok' else ex3.status
+                        if k2 != k3:
+                            V, _ = _mk_V(acc, 'C06', sc, {'calendar_edit': edit})
+                            V('result-after-calendar-edit-depends-on-earlier-call', edit,
+                              'after the calendar changed, the scheduler that had already been used gives another schedule than a fresh one')
+                    else:
+                        evaluate(prop, sc, ex2, acc, extra={'calendar_edit': edit, 'note': 'second calc on the same scheduler after the edit'})
+
+
 def _work(chunk):
     prop, tier, lname, i, n = chunk
     acc = runtime.Acc()
+    if lname == 'HC':
+        if i == 0:
+            calendar_edit_histories(prop, acc)
+        return acc
     gen = dict(plan(prop, tier))[lname]()
     bound_cal = 2 if tier == 'quick' else 3
     if prop in ('C14', 'C03') and tier == 'quick':
@@ -446,7 +492,7 @@ def c06_clock(sc, acc):
 
 
 def _c06_layers(tier):
-    return [('L1', lambda: LY.L1(tier)), ('L1x', lambda: LY.L1x(tier)), ('L2', lambda: LY.L2(tier)), ('L3', lambda: LY.L3(tier)),
+    return [('L1', lambda: LY.L1(tier)), ('L1x', lambda: LY.L1x(tier)), ('L1y', lambda: LY.L1y(tier)), ('L2', lambda: LY.L2(tier)), ('L3', lambda: LY.L3(tier)),
             ('L6', lambda: LY.L6(tier)), ('L4clock', lambda: LY.L4_inputs(tier, ('fwd',))), ('H', None)]
 
 
@@ -458,6 +504,8 @@ def _work_c06(chunk):
         for s, b in combos[i::n]:
             c06_histories(tier, s, b, acc)
             c06_edit_histories(s, b, acc)
+        if i == 0:
+            calendar_edit_histories('C06', acc)
         return acc
     gen = dict(_c06_layers(tier))[lname]()
     for sc in itertools.islice(gen, i, None, n):
